@@ -247,7 +247,8 @@ def matrix_generator(img):
     (i, rp) where rp is a 2d array with rp.shape = (r.shape[0], prod(r.shape[1:]))
     """
     for i, r in img:
-        rp = np.reshape(r, (r.shape[0], np.prod(r.shape[1:])))
+        # int(): np.prod(()) is the float 1.0 for 1D items
+        rp = np.reshape(r, (r.shape[0], int(np.prod(r.shape[1:]))))
         yield i, rp
 
 
